@@ -360,6 +360,13 @@ def main():
          "def QPACK_STATIC_TABLE : List (List UInt8 × List UInt8) := ["]
     Q.append(",\n".join(f"  ({lean_str_bytes(rust_str(k))}, {lean_str_bytes(rust_str(v))})" for k, v in rows))
     Q.append("]")
+
+    def lean_string(t):
+        return '"' + t.replace("\\", "\\\\").replace('"', '\\"') + '"'
+    Q.append("/-- the same rows as text (for comparison with the hand-transcribed RFC 9204 Appendix A) -/")
+    Q.append("def QPACK_STATIC_TABLE_STR : List (String × String) := [")
+    Q.append(",\n".join(f"  ({lean_string(rust_str(k))}, {lean_string(rust_str(v))})" for k, v in rows))
+    Q.append("]")
     # encoder patterns: (flags, N) per representation
     enc = need(re.search(r"pub fn encode<H, K, V>\(headers: H\) -> Box<\[u8\]>(.*?)\n    \}", s, re.S), f"{rel}: Encoder::encode").group(1)
     pre = re.findall(r"Self::encode_integer::<(\d+), _>\((\w+), (\w+), &mut buffer\)", enc)
